@@ -123,7 +123,7 @@ Print Assumptions C13_error_argument_refuted.
 
 Theorem C13_oneOf_false_member_refuted :
   valid re_a w_oneOf (JNum 2) = false /\ encode re_a w_oneOf (JNum 2) = true /\
-  r_dev (enc re_a w_oneOf mall) = [DEV_oneOf_false].
+  r_dev (enc re_a w_oneOf mall) = [DEV_oneOf_false; DEV_error_member].
 Proof. exact oneOf_false_member_refuted. Qed.
 Print Assumptions C13_oneOf_false_member_refuted.
 
